@@ -19,9 +19,10 @@ const (
 	StNotes   = "notes"
 	StTickets = "tickets"
 	StGroups  = "groups"
+	StMemos   = "memos" // topic -> groups via AddFkConstraint(nullable, CascadeDelete): a cascade target without child stores
 )
 
-var AllStores = []string{StDepts, StPeople, StStaff, StPX, StBadges, StNotes, StTickets, StGroups}
+var AllStores = []string{StDepts, StPeople, StStaff, StPX, StBadges, StNotes, StTickets, StGroups, StMemos}
 
 // ---------- entities ----------
 
@@ -84,6 +85,15 @@ type Ticket struct {
 func (e *Ticket) GetId() string         { return e.Id }
 func (e *Ticket) SetId(id string)       { e.Id = id }
 func (e *Ticket) GetEntityType() string { return StTickets }
+
+type Memo struct {
+	Id    string
+	Topic *string
+}
+
+func (e *Memo) GetId() string         { return e.Id }
+func (e *Memo) SetId(id string)       { e.Id = id }
+func (e *Memo) GetEntityType() string { return StMemos }
 
 type Group struct {
 	Id string
@@ -189,6 +199,16 @@ func (ticketStrategy) PersistEntity(e *Ticket, ctx *boltz.PersistContext) {
 	ctx.SetStringP("assignee", e.Assignee)
 }
 
+type memoStrategy struct{}
+
+func (memoStrategy) NewEntity() *Memo { return &Memo{} }
+func (memoStrategy) FillEntity(e *Memo, b *boltz.TypedBucket) {
+	e.Topic = b.GetString("topic")
+}
+func (memoStrategy) PersistEntity(e *Memo, ctx *boltz.PersistContext) {
+	ctx.SetStringP("topic", e.Topic)
+}
+
 type groupStrategy struct{}
 
 func (groupStrategy) NewEntity() *Group                           { return &Group{} }
@@ -230,6 +250,9 @@ type NoteStore struct {
 type TicketStore struct {
 	*boltz.BaseStore[*Ticket]
 }
+type MemoStore struct {
+	*boltz.BaseStore[*Memo]
+}
 type GroupStore struct {
 	*boltz.BaseStore[*Group]
 	symMembers   boltz.EntitySetSymbol
@@ -247,6 +270,7 @@ type Stores struct {
 	Notes   *NoteStore
 	Tickets *TicketStore
 	Groups  *GroupStore
+	Memos   *MemoStore
 }
 
 const rootBucket = "stores"
@@ -321,6 +345,9 @@ func NewStores() *Stores {
 	s.Groups = &GroupStore{BaseStore: boltz.NewBaseStore(boltz.StoreDefinition[*Group]{
 		EntityType: StGroups, EntityStrategy: groupStrategy{}, BasePath: base, EntityNotFoundF: notFoundF(StGroups)})}
 	s.Groups.InitImpl(s.Groups)
+	s.Memos = &MemoStore{BaseStore: boltz.NewBaseStore(boltz.StoreDefinition[*Memo]{
+		EntityType: StMemos, EntityStrategy: memoStrategy{}, BasePath: base, EntityNotFoundF: notFoundF(StMemos)})}
+	s.Memos.InitImpl(s.Memos)
 
 	// ---- local symbols / indexes ----
 	d := s.Depts
@@ -388,6 +415,10 @@ func NewStores() *Stores {
 	g.symMembers = g.AddFkSetSymbol("members", p)
 	g.symKudosFrom = g.AddFkSetSymbol("kudosFrom", p)
 
+	mm := s.Memos
+	mm.AddIdSymbol("id", ast.NodeTypeString)
+	mm.AddFkConstraint(mm.AddFkSymbol("topic", g), true, boltz.CascadeDelete)
+
 	// ---- linked ----
 	p.lcGroups = p.AddLinkCollection(p.symGroups, g.symMembers)
 	g.lcMembers = g.AddLinkCollection(g.symMembers, p.symGroups)
@@ -415,13 +446,15 @@ func (s *Stores) ByName(name string) boltz.Store {
 		return s.Tickets
 	case StGroups:
 		return s.Groups
+	case StMemos:
+		return s.Memos
 	}
 	panic("unknown store " + name)
 }
 
 // TopLevel lists the stores that own an entities bucket (used by CheckIntegrity / InitializeIndexes fan-out).
 func (s *Stores) All() []boltz.Store {
-	return []boltz.Store{s.Depts, s.People, s.Staff, s.PX, s.Badges, s.Notes, s.Tickets, s.Groups}
+	return []boltz.Store{s.Depts, s.People, s.Staff, s.PX, s.Badges, s.Notes, s.Tickets, s.Groups, s.Memos}
 }
 
 type indexInitializer interface {
